@@ -41,6 +41,33 @@ Next == /\ i <= Len(Values)
         /\ i' = i + 1
 Spec == Init /\ [][Next]_i
 
+(* C01 as a theorem of the format: decoding the pinned rendering of a canonical value gives the *)
+(* value back, with the self-computed fields at their correct values                            *)
+RoundTrips ==
+  i <= Len(Values) =>
+    \A k \in {0, 1, 3, 1000} :
+      LET v == CutTexts(Values[i].t, Values[i].v, k)
+          E == EncMsg(Values[i].t, v)
+      IN E.ok /\ Canonical(Values[i].t, v) => Dec(Values[i].t, E.bytes).val = E.val
+
+(* C11 as a theorem of the format: no strict prefix of a pinned rendering decodes (images up to *)
+(* MaxCutLen bytes; every cut position)                                                         *)
+MaxCutLen == 260
+PrefixFree ==
+  i <= Len(Values) =>
+    \A w \in ImagesOf(Values[i].t, Values[i].v) :
+      Len(w) <= MaxCutLen => \A c \in 0..(Len(w) - 1) : ~Dec(Values[i].t, Take(w, c)).ok
+
+(* C08 on a small type, exhaustively: whatever bytes the decoder of sample.SubPacket accepts,   *)
+(* re-encoding the result reproduces exactly the bytes consumed (all strings of <= 8 bytes over *)
+(* a 4-symbol alphabet: 87,381 strings)                                                         *)
+SmallAlphabet == {0, 1, 65, 255}
+SmallStrings == UNION {[1..n -> SmallAlphabet] : n \in 0..8}
+ReencodeSmall ==
+  i = 1 => \A w \in SmallStrings :
+             LET D == Dec("sample.SubPacket", w) IN
+             D.ok => LET E == EncMsg("sample.SubPacket", D.val) IN E.ok /\ E.bytes = Take(w, D.used)
+
 (* the pinned rendering of any value decodes, and consumes exactly itself (prefix-freeness of the format) *)
 SelfDecodes == i <= Len(Values) => \A w \in ImagesOf(Values[i].t, Values[i].v) : LET D == Dec(Values[i].t, w) IN D.ok /\ D.used = Len(w)
 =============================================================================
